@@ -35,7 +35,7 @@ CHECKS["C11"] = ("exploration",
 CHECKS["C14"] = ("exploration",
          "Metamorphic: two independent renderings of one generated grammar (layout, comments, form feeds, CRLF, '::=', final ';', redundant parentheses around space-separated items, statement order with call variants kept in order) must compile to byte-identical scripts for all four shells (library pipeline, 100k grammars in quick) and through the real binary (stdout + exit status, sampled).",
          "4.C14", "generated grammars x two generated renderings (seeded proptest choice streams) x metamorphic oracle: byte-identical output",
-         "trusted: the printer (both renderings are parsed and compared as trees first; a mismatch is reported as exit 2, not as a violation)")
+         "trusted: the printer rules (validated by C05 over the same printer)")
 
 CHECKS["C10"] = ("exploration",
          "Differential: repeated compilations of one grammar text must give byte-identical script, --dfa and --regex output: 3 compilations per (grammar, shell) inside one process (every randomly seeded container instance gets new keys), and separately started complgen processes with different environments, path spellings and destinations, also compared with the in-process result; bundled examples + large random grammars.",
